@@ -1,5 +1,6 @@
 import Hannibal.Monitor.C01
 import Hannibal.Monitor.C02
+import Hannibal.Monitor.C02C
 import Hannibal.Monitor.C03
 import Hannibal.Monitor.C04
 import Hannibal.Monitor.C05
@@ -37,15 +38,18 @@ def wfAll (c : MonCtx) (ls : List Label) : List (Option Nat) :=
 def runMonitor (pid : String) (c : MonCtx) (ls : List Label) : Option (Option Nat) :=
   match pid with
   | "C01" => some (firstSome ([ff (monC01 c) ls,
-      -- "the state is the fold of the handled messages": an incarnation is only replaced by a requested restart
-      ff (monC07 c) ls, ff (monC07o c) ls] ++ wfAll c ls))
+      -- "the state is the fold of the handled messages": an incarnation is only replaced by a requested restart,
+      -- and "handled" means run to completion: an invocation is only ever abandoned by a configured timeout
+      ff (monC07 c) ls, ff (monC07o c) ls, ff (monC11 c) ls] ++ wfAll c ls))
   | "C02" => some (firstSome ([ff (monC02 c) ls, ff (monC02t c) ls,
       -- "awaits complete with the termination result": Ok only after a graceful end, an error after a failure
-      ff (monC04 c) ls, ff (monC06 c) ls] ++ wfAll c ls))
+      ff (monC04 c) ls, ff (monC06 c) ls,
+      ff monC02c ls] ++ wfAll c ls))    -- a call whose message was handled to completion does not return an error
   | "C03" => some (firstSome ([ff (monC03 c) ls, ff (monC03q c) ls] ++ wfAll c ls))
   | "C04" => some (firstSome ([ff (monC04 c) ls, ff (monC04q c) ls,
       -- "halt and join resolve only after stopped has finished ... an error / None when the actor failed"
-      ff (monC17 c) ls, ff (monC06 c) ls] ++ wfAll c ls))
+      ff (monC17 c) ls, ff (monC06 c) ls,
+      ff monC02c ls] ++ wfAll c ls))    -- "every message whose submission completed before ... (its call returns Ok)"
   | "C05" => some (firstSome ([ff (monC05 c) ls, ff (monC05q c) ls,
       ff (monC05d c) ls,          -- dropped calls are drained too
       ff (monC03 c) ls] ++ wfAll c ls))   -- "terminates gracefully exactly as after stop"
